@@ -403,6 +403,87 @@ def stage_corr(ctx: Ctx, progs):
                        [meta[i] for i in failed])
 
 
+RESEND_PROGS = ['r = [a, [b, c], d]\n', 'x = f(a, g(b, k=c), d)\ny = 1\n', 'if a:\n    b = (c, {d: e})\nelse:\n    z = -w\n', 'v = [i for i in (j, k) if l]\n']
+
+
+def stage_resend(ctx: Ctx):
+    """send(True) when a node is LEFT (on='leave' / on='both'): its children - the NEW children if it was replaced at that yield - are walked again and the
+    node is yielded again after them, then the walk goes on as it would have; for every expression of a set of programs, the walk root included
+    (tree root and inner node), forwards and backwards, with and without recurse"""
+    import fst
+
+    def key(g):
+        n, l = g if isinstance(g, tuple) else (g, None)
+        return (id(n), l)
+
+    def label(g):
+        n, l = g if isinstance(g, tuple) else (g, None)
+        return [type(n.a).__name__ if n.a is not None else None, n.src if n.a is not None and n.loc else None, l]
+    for src in RESEND_PROGS:
+        probe = fst.FST(src, 'exec')
+        tpaths = [probe.child_path(f, True) for f in probe.walk() if isinstance(f.a, ast.expr) and isinstance(getattr(f.a, 'ctx', ast.Load()), ast.Load)
+                  and not isinstance(f.parent.a, (ast.JoinedStr, ast.FormattedValue)) and not isinstance(f.a, (ast.Starred, ast.Slice))]
+        for tp in tpaths:
+            for wroot in ('tree', 'parent', 'self'):
+                for on in ('leave', 'both'):
+                    for back in (False, True):
+                        for recurse in (True, False):
+                            for action in ('none', 'replace'):
+                                root = fst.FST(src, 'exec')
+                                T = root.child_from_path(tp)
+                                W = root if wroot == 'tree' else T if wroot == 'self' else T.parent
+                                if recurse is False and not (W is T or T.parent is W):
+                                    continue
+                                if W is T and not list(T.walk(self_=False)):
+                                    continue        # a walk root without children is not yielded again (an inner leaf is): not claimed either way
+                                kw = dict(on=on, back=back, recurse=recurse)
+                                # the undisturbed walk of the same tree with the same replacement made beforehand: what must follow the re-walk
+                                ref_root = fst.FST(src, 'exec')
+                                RT = ref_root.child_from_path(tp)
+                                RW = ref_root if wroot == 'tree' else RT if wroot == 'self' else RT.parent
+                                if action == 'replace':
+                                    RT.replace('[x, y.z]')
+                                ref_items = list(RW.walk(**kw))
+                                ks = [i for i, g in enumerate(ref_items) if ((g[0] is RT and g[1]) if isinstance(g, tuple) else g is RT)]
+                                ref_after = [label(g) for g in ref_items[ks[-1] + 1:]] if ks else []
+                                gen = W.walk(**kw)
+                                got_after, rewalk, expected, phase = [], [], None, 0
+                                rec = {'src': src, 'target': tp, 'walk_root': wroot, 'walk_kwargs': {k_: repr(v) for k_, v in kw.items()}, 'at_leaving_yield': action + ' + send(True)'}
+                                try:
+                                    steps = 0
+                                    for g in gen:
+                                        steps += 1
+                                        if steps > 500:
+                                            raise RuntimeError('walk does not end')
+                                        n, l = g if isinstance(g, tuple) else (g, True)
+                                        if phase == 0:
+                                            if n is T and l:
+                                                if action == 'replace':
+                                                    T.replace('[x, y.z]')
+                                                gen.send(True)
+                                                expected = [key(x) for x in T.walk(on=on, back=back)]
+                                                exp_labels = [label(x) for x in T.walk(on=on, back=back)]
+                                                phase = 1
+                                        elif phase == 1:
+                                            rewalk.append(g)
+                                            if len(rewalk) == len(expected):
+                                                phase = 2
+                                        else:
+                                            got_after.append(label(g))
+                                except Exception as e:
+                                    ctx.violation(f'resend-raise|{on}|{type(e).__name__}', 'the iteration raised', {**rec, 'error': repr(e)[:300]})
+                                    continue
+                                ctx.tick(('resend', src, tp, wroot, on, back, recurse, action), f'resend:{on}:{action}')
+                                if phase == 0:
+                                    continue        # the target is not yielded by this walk
+                                if [key(x) for x in rewalk] != expected:
+                                    ctx.violation(f'resend|{on}|{action}|root={wroot}', "send(True) on leaving a node is not honoured: its (new) children are not walked again followed by the node",
+                                                  {**rec, 'after_send': [label(x) for x in rewalk] + got_after[:3], 'expected': exp_labels})
+                                elif got_after != ref_after:
+                                    ctx.violation(f'resend-continuation|{on}|{action}|root={wroot}', 'after the re-walk the iteration does not go on with what follows the node',
+                                                  {**rec, 'got': got_after[:12], 'expected': ref_after[:12]})
+
+
 def run(ctx: Ctx):
     ctx.rule = ('random walks (on enter/leave/both, back, all filters, self_, recurse, scope) over corpus programs; at ~30% of the entered nodes one mutation: replace or remove the node '
                 'itself, one of up to 3 ancestors, the previous or the next sibling; ~12% send(False/True). Checked: no exception, bounded number of steps, every yielded node attached and '
@@ -416,6 +497,7 @@ def run(ctx: Ctx):
     progs = corpus(ctx.rng, gen=ctx.scale(20, 120))
     run_guarded(ctx, stage_oracle, progs)
     run_guarded(ctx, stage_scope_targets)
+    run_guarded(ctx, stage_resend)
     run_guarded(ctx, stage_corr, progs)
 
 
